@@ -116,22 +116,30 @@ def stmt_id(text):
 PAD_LINE = "fn pad_%05d(v: u32) -> u32 { let w = v.wrapping_mul(%d); w ^ 0x5bd1 }\n"
 
 
-def make_pad(rng, nbytes):
-    """Inert code of roughly nbytes bytes."""
+PAD_UNI = "既定値を返す日本語のコメントéßжΩ𝔘😀ñ"
+
+
+def make_pad(rng, nbytes, unicode_p=0.0):
+    """Inert code of roughly nbytes bytes; with unicode_p > 0 some lines are comments made of 2-4 byte characters
+    (so that multi-byte characters sit at every offset, in particular across buffer-size boundaries)."""
     if nbytes <= 0:
         return "\n"
     out = []
     size = 0
     i = rng.randrange(1000)
     while size < nbytes:
-        ln = PAD_LINE % (i, rng.randrange(1, 99999))
+        if unicode_p and rng.random() < unicode_p:
+            ln = "// " + "".join(rng.choice(PAD_UNI) for _ in range(rng.randrange(5, 40))) + "\n"
+            size += len(ln.encode("utf-8"))
+        else:
+            ln = PAD_LINE % (i, rng.randrange(1, 99999))
+            size += len(ln)
         out.append(ln)
-        size += len(ln)
         i += 1
     return "".join(out)
 
 
-SIZE_CLASSES = {"tiny": 0, "k8": 9000, "k64": 70000, "k256": 270000}
+SIZE_CLASSES = {"tiny": 0, "k8": 9000, "k64": 70000, "k160": 160000, "k256": 270000}
 
 
 class Gen:
@@ -154,16 +162,16 @@ class Gen:
         text = render_stmt(shape, mk, macro, rid, structured, words)
         return ["stmt", mk, text]
 
-    def source_file(self, structured, nstmts, size_class, ids, shapes=None, crlf=False):
+    def source_file(self, structured, nstmts, size_class, ids, shapes=None, crlf=False, unicode_p=0.0):
         """ids: list (len nstmts) of planted IDs or None."""
         rng = self.rng
         total = SIZE_CLASSES[size_class]
         segs = [["pad", "// generated\nuse log::{info, warn, error};\n\n"]]
         for i in range(nstmts):
-            segs.append(["pad", make_pad(rng, total // (nstmts + 1)) + "fn f_%d(count: u32, state: &str) {\n" % i])
+            segs.append(["pad", make_pad(rng, total // (nstmts + 1), unicode_p) + "fn f_%d(count: u32, state: &str) {\n" % i])
             segs.append(self.stmt(structured, ids[i], shapes))
             segs.append(["pad", "}\n"])
-        segs.append(["pad", make_pad(rng, total // (nstmts + 1))])
+        segs.append(["pad", make_pad(rng, total // (nstmts + 1), unicode_p)])
         if crlf:
             for s in segs:
                 s[-1] = s[-1].replace("\n", "\r\n")
@@ -250,7 +258,7 @@ def gen_ids(rng, n, p_have=0.4, lo=1, hi=60, special=None):
 
 
 def gen_world_model(rng, structured=None, use_cache="rand", nfiles=None, sizes=None, p_have=0.4, id_hi=60,
-                    lock="rand", shapes=None, max_stmts=4, min_missing=1, special_ids=None, crlf_p=0.0):
+                    lock="rand", shapes=None, max_stmts=4, min_missing=1, special_ids=None, crlf_p=0.0, unicode_p=0.0):
     """A project with generated in-scope source files under proj/src (nested sometimes)."""
     g = Gen(rng)
     if structured is None:
@@ -286,7 +294,8 @@ def gen_world_model(rng, structured=None, use_cache="rand", nfiles=None, sizes=N
                 ids.append(None)
         missing += sum(1 for i in ids if i is None)
         sc = rng.choice(sizes or ["tiny", "tiny", "tiny", "k8", "k64"])
-        files["proj/src/" + names[fi]] = g.source_file(structured, ns, sc, ids, shapes, crlf=rng.random() < crlf_p)
+        files["proj/src/" + names[fi]] = g.source_file(structured, ns, sc, ids, shapes, crlf=rng.random() < crlf_p,
+                                                       unicode_p=unicode_p)
     if missing < min_missing:
         # make sure there is work to do
         p = sorted(files)[0]
